@@ -21,13 +21,18 @@ struct Q {
     z: f32,
 }
 
-#[derive(Clone, Copy, Debug, Default, Eq, Hash, PartialEq)]
+/// The key type's `Hash` is deliberately coarser than its `Eq` (K0/K1 collide, K2/K3 collide) — lawful (equal keys
+/// hash equally) and harmless to a `HashMap`, but it exposes code that takes "same hash" for "same key".
+#[derive(Clone, Copy, Debug, Default, Eq, PartialEq)]
 enum Key {
     #[default]
     K0,
     K1,
     K2,
     K3,
+}
+impl std::hash::Hash for Key {
+    fn hash<H: std::hash::Hasher>(&self, h: &mut H) { (key_idx(*self) / 2).hash(h) }
 }
 fn key_of(i: usize) -> Key {
     [Key::K0, Key::K1, Key::K2, Key::K3][i]
@@ -36,13 +41,13 @@ fn key_idx(k: Key) -> usize {
     match k { Key::K0 => 0, Key::K1 => 1, Key::K2 => 2, Key::K3 => 3 }
 }
 
-#[derive(Clone, Debug)]
-struct Cust(u32);
-impl EasingFunction for Cust {
-    fn calc(&self, x: f32) -> f32 {
-        match self.0 { 0 => x * x, 1 => 1.0 - (1.0 - x) * (1.0 - x), _ => x * 0.5 + 0.25 }
-    }
-}
+// zero-sized custom easing types (all boxed at the same dangling address; see core_harness)
+#[derive(Clone, Debug)] struct C0;
+#[derive(Clone, Debug)] struct C1;
+#[derive(Clone, Debug)] struct C2;
+impl EasingFunction for C0 { fn calc(&self, x: f32) -> f32 { x * x } }
+impl EasingFunction for C1 { fn calc(&self, x: f32) -> f32 { 1.0 - (1.0 - x) * (1.0 - x) } }
+impl EasingFunction for C2 { fn calc(&self, x: f32) -> f32 { x * 0.5 + 0.25 } }
 
 const EASING_NAMES: [&str; 29] = [
     "Linear", "Ease", "In", "Out", "InOut", "InSine", "OutSine", "InOutSine", "InQuad", "OutQuad", "InOutQuad",
@@ -51,7 +56,7 @@ const EASING_NAMES: [&str; 29] = [
 ];
 fn parse_easing(s: &str) -> Easing {
     if let Some(n) = s.strip_prefix('c') {
-        if let Ok(k) = n.parse::<u32>() { return Easing::Custom(Box::new(Cust(k))); }
+        if let Ok(k) = n.parse::<u32>() { return match k { 0 => Easing::Custom(Box::new(C0)), 1 => Easing::Custom(Box::new(C1)), _ => Easing::Custom(Box::new(C2)) }; }
     }
     match s {
         "Linear" => Easing::Linear, "Ease" => Easing::Ease, "In" => Easing::In, "Out" => Easing::Out,
@@ -121,13 +126,17 @@ fn state_idx(s: AnimationState) -> usize {
     match s { AnimationState::None => 0, AnimationState::Waiting => 1, AnimationState::Playing => 2, AnimationState::Ended => 3 }
 }
 
-struct Sim {
-    app: App,
+struct Ent {
     entity: Entity,
-    now: Instant,
-    reader: bevy::ecs::event::ManualEventReader<AnimationStateChanged>,
     has_sel: bool,
     has_q: bool,
+}
+
+struct Sim {
+    app: App,
+    ents: Vec<Ent>,          // entity 0 is the one spawned by `bapp`; `bent` adds more to the same App
+    now: Instant,
+    reader: bevy::ecs::event::ManualEventReader<AnimationStateChanged>,
 }
 
 struct Runner {
@@ -160,61 +169,80 @@ impl Runner {
         app.edit_schedule(Update, |s| { s.set_executor_kind(bevy::ecs::schedule::ExecutorKind::SingleThreaded); });
         let now = Instant::now();
         app.world.resource_mut::<Time>().update_with_instant(now);
+        self.sim = Some(Sim { app, ents: Vec::new(), now, reader: Default::default() });
+        self.spawn(w, q_first_plugin);
+        self.observe(vec![])
+    }
+
+    /// `bent <same arguments as bapp, 1..8>`: one more entity in the same App
+    fn bent(&mut self, w: &[&str]) -> String {
+        self.spawn(w, false);
+        self.observe(vec![])
+    }
+
+    fn spawn(&mut self, w: &[&str], via_default: bool) {
         let comp = P { a: fb(w[1]), b: fb(w[2]) };
         // without a timeline: `Animator::new()` or `Animator::default()` (documented as the same)
-        let mut anim = match self.clone_p(w[3]) { Some(t) => Animator::<P>::with_timeline(t), None => if q_first_plugin { Animator::<P>::default() } else { Animator::<P>::new() } };
+        let mut anim = match self.clone_p(w[3]) { Some(t) => Animator::<P>::with_timeline(t), None => if via_default { Animator::<P>::default() } else { Animator::<P>::new() } };
         if w[4] == "0" { anim = anim.as_disabled(); }
-        let mut e = app.world.spawn((comp, anim));
         let has_sel = w[5] != "none";
-        if has_sel {
+        let sel = if has_sel {
             let mut sb = AnimationSelectorBuilder::<Key, P>::new().initial_key(key_of(w[6].parse().unwrap()));
             for (i, tok) in w[5].split(',').enumerate() {
                 if let Some(t) = self.clone_p(tok) { sb = sb.add(key_of(i), t); }
             }
-            e.insert(sb.build());
-        }
-        if w[7] != "none" {
+            Some(sb.build())
+        } else { None };
+        let chain = if w[7] != "none" {
             let mut cb = AnimationChainBuilder::<Key>::new();
             for pair in w[7].split(',') {
                 let (x, y) = pair.split_once('>').unwrap();
                 cb = cb.add(key_of(x.parse().unwrap()), key_of(y.parse().unwrap()));
             }
-            e.insert(cb.build());
-        }
+            Some(cb.build())
+        } else { None };
         let has_q = w[8] != "none";
-        if has_q {
+        let qparts = if has_q {
             let (z, t) = w[8].split_once(',').unwrap();
             let aq = match self.clone_q(t) { Some(t) => Animator::<Q>::with_timeline(t), None => Animator::<Q>::new() };
-            e.insert((Q { z: fb(z) }, aq));
-        }
+            Some((Q { z: fb(z) }, aq))
+        } else { None };
+        let sim = self.sim.as_mut().unwrap();
+        let mut e = sim.app.world.spawn((comp, anim));
+        if let Some(sel) = sel { e.insert(sel); }
+        if let Some(chain) = chain { e.insert(chain); }
+        if let Some(q) = qparts { e.insert(q); }
         let entity = e.id();
-        self.sim = Some(Sim { app, entity, now, reader: Default::default(), has_sel, has_q });
-        self.observe(vec![])
+        sim.ents.push(Ent { entity, has_sel, has_q });
     }
 
-    fn observe(&mut self, evs: Vec<usize>) -> String {
+    fn observe(&mut self, evs: Vec<(Entity, usize)>) -> String {
         let sim = self.sim.as_mut().unwrap();
         let w = &sim.app.world;
-        let a = w.get::<Animator<P>>(sim.entity).unwrap();
-        let p = w.get::<P>(sim.entity).unwrap();
-        let mut s = format!("{} {} {} {} {}", state_idx(a.state()), a.timeline_position.as_nanos(), a.enabled as u8, b(p.a), b(p.b));
-        if sim.has_sel {
-            let sel = w.get::<AnimationSelector<Key, P>>(sim.entity).unwrap();
-            s.push_str(&format!(" | key={}", key_idx(sel.timeline_key)));
-        } else {
-            s.push_str(" | key=-");
+        let mut parts = Vec::new();
+        for ent in &sim.ents {
+            let a = w.get::<Animator<P>>(ent.entity).unwrap();
+            let p = w.get::<P>(ent.entity).unwrap();
+            let mut s = format!("{} {} {} {} {}", state_idx(a.state()), a.timeline_position.as_nanos(), a.enabled as u8, b(p.a), b(p.b));
+            if ent.has_sel {
+                let sel = w.get::<AnimationSelector<Key, P>>(ent.entity).unwrap();
+                s.push_str(&format!(" | key={}", key_idx(sel.timeline_key)));
+            } else {
+                s.push_str(" | key=-");
+            }
+            let mut mine: Vec<usize> = evs.iter().filter(|(e, _)| *e == ent.entity).map(|(_, st)| *st).collect();
+            mine.sort();
+            s.push_str(&format!(" | ev={}", mine.iter().map(|e| e.to_string()).collect::<Vec<_>>().join(",")));
+            if ent.has_q {
+                let aq = w.get::<Animator<Q>>(ent.entity).unwrap();
+                let q = w.get::<Q>(ent.entity).unwrap();
+                s.push_str(&format!(" | {} {} {}", state_idx(aq.state()), aq.timeline_position.as_nanos(), b(q.z)));
+            } else {
+                s.push_str(" | -");
+            }
+            parts.push(s);
         }
-        let mut evs = evs;
-        evs.sort();
-        s.push_str(&format!(" | ev={}", evs.iter().map(|e| e.to_string()).collect::<Vec<_>>().join(",")));
-        if sim.has_q {
-            let aq = w.get::<Animator<Q>>(sim.entity).unwrap();
-            let q = w.get::<Q>(sim.entity).unwrap();
-            s.push_str(&format!(" | {} {} {}", state_idx(aq.state()), aq.timeline_position.as_nanos(), b(q.z)));
-        } else {
-            s.push_str(" | -");
-        }
-        s
+        parts.join(" ## ")
     }
 
     fn frame(&mut self, delta_ns: u64) -> String {
@@ -225,16 +253,20 @@ impl Runner {
             sim.app.world.resource_mut::<Time>().update_with_instant(now);
             sim.app.update();
         }
-        let evs: Vec<usize> = {
+        let evs: Vec<(Entity, usize)> = {
             let sim = self.sim.as_mut().unwrap();
             let events = sim.app.world.resource::<Events<AnimationStateChanged>>();
-            sim.reader.iter(events).filter(|e| e.entity == sim.entity).map(|e| state_idx(e.state)).collect()
+            sim.reader.iter(events).map(|e| (e.entity, state_idx(e.state))).collect()
         };
         self.observe(evs)
     }
 
-    fn dispatch(&mut self, w: &[&str]) -> String {
+    fn dispatch(&mut self, w0: &[&str]) -> String {
+        // a trailing `@k` selects entity k of the App (default 0)
+        let (w, ek): (&[&str], usize) = match w0.last() { Some(t) if t.starts_with('@') => (&w0[..w0.len() - 1], t[1..].parse().unwrap()), _ => (w0, 0) };
+        let target = self.sim.as_ref().and_then(|s| s.ents.get(ek)).map(|e| e.entity);
         match w[0] {
+            "bent" => self.bent(w),
             "#" => "#".into(),
             "shape" | "border" => "ok".into(),
             "reset" => { self.tls.clear(); self.sim = None; "ok".into() }
@@ -243,32 +275,32 @@ impl Runner {
             "frame" => self.frame(w[1].parse().unwrap()),
             "setkey" => {
                 let sim = self.sim.as_mut().unwrap();
-                if let Some(mut sel) = sim.app.world.get_mut::<AnimationSelector<Key, P>>(sim.entity) {
+                if let Some(mut sel) = sim.app.world.get_mut::<AnimationSelector<Key, P>>(target.unwrap()) {
                     sel.timeline_key = key_of(w[1].parse().unwrap());
                 }
                 self.observe(vec![])
             }
             "enable" => {
                 let sim = self.sim.as_mut().unwrap();
-                sim.app.world.get_mut::<Animator<P>>(sim.entity).unwrap().enabled = w[1] == "1";
+                sim.app.world.get_mut::<Animator<P>>(target.unwrap()).unwrap().enabled = w[1] == "1";
                 self.observe(vec![])
             }
             "breset" => {
                 let sim = self.sim.as_mut().unwrap();
-                sim.app.world.get_mut::<Animator<P>>(sim.entity).unwrap().reset();
+                sim.app.world.get_mut::<Animator<P>>(target.unwrap()).unwrap().reset();
                 self.observe(vec![])
             }
             "settl" => {
                 let t = self.clone_p(w[1]);
                 let sim = self.sim.as_mut().unwrap();
-                if let Some(t) = t { sim.app.world.get_mut::<Animator<P>>(sim.entity).unwrap().set_timeline(t); }
+                if let Some(t) = t { sim.app.world.get_mut::<Animator<P>>(target.unwrap()).unwrap().set_timeline(t); }
                 self.observe(vec![])
             }
             "terminal" => {
                 // what the timeline in `slot` shows long after its end, applied to a copy of the component
                 let t = self.clone_p(w[1]);
                 let sim = self.sim.as_mut().unwrap();
-                let mut c = sim.app.world.get::<P>(sim.entity).unwrap().clone();
+                let mut c = sim.app.world.get::<P>(target.unwrap()).unwrap().clone();
                 if let Some(t) = t { t.update(&mut c, 1.0e9); }
                 format!("{} {}", b(c.a), b(c.b))
             }
@@ -276,13 +308,13 @@ impl Runner {
                 // the timeline in `slot` evaluated at a position given in nanoseconds, applied to a copy of the component
                 let t = self.clone_p(w[1]);
                 let sim = self.sim.as_mut().unwrap();
-                let mut c = sim.app.world.get::<P>(sim.entity).unwrap().clone();
+                let mut c = sim.app.world.get::<P>(target.unwrap()).unwrap().clone();
                 if let Some(t) = t { t.update(&mut c, Duration::from_nanos(w[2].parse().unwrap()).as_secs_f32()); }
                 format!("{} {}", b(c.a), b(c.b))
             }
             "setpos" => {
                 let sim = self.sim.as_mut().unwrap();
-                sim.app.world.get_mut::<Animator<P>>(sim.entity).unwrap().timeline_position = Duration::from_nanos(w[1].parse().unwrap());
+                sim.app.world.get_mut::<Animator<P>>(target.unwrap()).unwrap().timeline_position = Duration::from_nanos(w[1].parse().unwrap());
                 self.observe(vec![])
             }
             _ => "bad-op".into(),
@@ -386,19 +418,34 @@ fn generate(seed: u64, n: usize, out: &mut dyn Write) {
         for s in 1..=4 { let short = r.chance(1, 3); writeln!(out, "{}", gen_tl(&mut r, s, "P", short)).unwrap(); }
         let short = r.chance(1, 2);
         writeln!(out, "{}", gen_tl(&mut r, 5, "Q", short)).unwrap();
-        let a0 = (r.below(41) as f32 - 20.0) * 0.5;
-        let b0 = (r.below(41) as f32 - 20.0) * 0.5;
-        let with_sel = r.chance(1, 2);
-        let tl0 = if with_sel || r.chance(1, 6) { "-".to_string() } else { (1 + r.below(4)).to_string() };
-        let enabled = !r.chance(1, 8);
-        let sel = if with_sel { (0..4).map(|i| if r.chance(3, 4) { (i + 1).to_string() } else { "-".into() }).collect::<Vec<_>>().join(",") } else { "none".into() };
-        let key = r.below(4);
-        let chain = if with_sel && r.chance(2, 3) {
-            let k = 1 + r.below(3);
-            (0..k).map(|_| format!("{}>{}", r.below(4), r.below(4))).collect::<Vec<_>>().join(",")
-        } else { "none".into() };
-        let q = if r.chance(1, 3) { format!("{},{}", b(1.5), if r.chance(4, 5) { "5" } else { "-" }) } else { "none".into() };
-        writeln!(out, "bapp {} {} {} {} {} {} {} {} q{}", b(a0), b(b0), tl0, enabled as u8, sel, key, chain, q, variant).unwrap();
+        // one entity's configuration: component values, timeline slot, enabled, selector, key, chain, second animator
+        let gen_ent = |r: &mut Rng| -> (String, bool, String, bool, u64) {
+            let a0 = (r.below(41) as f32 - 20.0) * 0.5;
+            let b0 = (r.below(41) as f32 - 20.0) * 0.5;
+            let with_sel = r.chance(1, 2);
+            let tl0 = if with_sel || r.chance(1, 6) { "-".to_string() } else { (1 + r.below(4)).to_string() };
+            let enabled = !r.chance(1, 8);
+            let sel = if with_sel { (0..4).map(|i| if r.chance(3, 4) { (i + 1).to_string() } else { "-".into() }).collect::<Vec<_>>().join(",") } else { "none".into() };
+            let key = r.below(4);
+            let chain = if with_sel && r.chance(2, 3) {
+                let k = 1 + r.below(3);
+                (0..k).map(|_| format!("{}>{}", r.below(4), r.below(4))).collect::<Vec<_>>().join(",")
+            } else { "none".into() };
+            let q = if r.chance(1, 3) { format!("{},{}", b(1.5), if r.chance(4, 5) { "5" } else { "-" }) } else { "none".into() };
+            (format!("{} {} {} {} {} {} {} {}", b(a0), b(b0), tl0, enabled as u8, sel, key, chain, q), with_sel, tl0, enabled, key)
+        };
+        let (line0, with_sel, tl0, enabled, key) = gen_ent(&mut r);
+        writeln!(out, "bapp {} q{}", line0, variant).unwrap();
+        // a quarter of the Apps hold two or three animated entities: the systems iterate over all of them and the events
+        // of all of them travel through one queue
+        let mut ent_sel: Vec<bool> = vec![with_sel];
+        if r.chance(1, 4) {
+            for _ in 0..(1 + r.below(2)) {
+                let (line, ws, _, _, _) = gen_ent(&mut r);
+                writeln!(out, "bent {}", line).unwrap();
+                ent_sel.push(ws);
+            }
+        }
         let frames = 6 + r.below(30);
         let mut cur_slot = tl0.clone();
         // the generator's own idea of the animator position (exact while the animator has not ended): lets the oracle
@@ -415,6 +462,15 @@ fn generate(seed: u64, n: usize, out: &mut dyn Write) {
                 last_key = k;
                 writeln!(out, "setkey {}", k).unwrap();
                 if r.chance(1, 4) { writeln!(out, "setkey {}", k).unwrap(); }
+            }
+            if ent_sel.len() > 1 && r.chance(1, 3) {
+                let e = 1 + r.below(ent_sel.len() as u64 - 1) as usize;
+                match r.below(4) {
+                    0 if ent_sel[e] => writeln!(out, "setkey {} @{}", r.below(4), e).unwrap(),
+                    1 => writeln!(out, "enable {} @{}", r.below(2), e).unwrap(),
+                    2 => writeln!(out, "breset @{}", e).unwrap(),
+                    _ => writeln!(out, "settl {} @{}", 1 + r.below(4), e).unwrap(),
+                }
             }
             match r.below(20) {
                 0 if with_sel => { last_key = r.below(4); writeln!(out, "setkey {}", last_key).unwrap() }
